@@ -28,7 +28,7 @@ def make_cases(tier, rng):
     # many plugin-side brokered listeners open at the moment of the Kill (plain gRPC: each has a socket file; whether
     # a serving goroutine gets to close its listener before the process exits is a race, so there are several)
     for l in (["cmd"] if tier == "quick" else ["cmd", "runner", "cmd", "runner"]):
-        cases.append({"name": "l%d" % len(cases), "proto": "grpc", "tls": "", "launch": l, "ops": ["broker_h2p"] * 8})
+        cases.append({"name": "l%d" % len(cases), "proto": "grpc", "tls": "", "launch": l, "ops": ["broker_h2p"] * 40})
     # one brokered id used twice in a row (plain gRPC: two listeners under one id are open at the Kill)
     for p, op in ([("grpc", "broker_p2h_reuse"), ("grpc", "broker_h2p_reuse")] if tier == "quick" else
                   [(p, op) for p in ["grpc", "grpc", "netrpc"] for op in ["broker_p2h_reuse", "broker_h2p_reuse"]]):
